@@ -420,7 +420,12 @@ def one(ctx, kind, ir, feat, opts, tmpdir, with_black):
         if kind == "class":
             node = emit.class_(ir_copy(ir), class_name="ConfigClass", emit_default_doc=edd, word_wrap=ww)
         elif kind in ("function", "method"):
-            node = emit.function(ir_copy(ir), function_name="f_target", function_type=opts["function_type"], word_wrap=ww,
+            fir, fname, ftype = ir_copy(ir), "f_target", opts["function_type"]
+            if opts.get("kind_from_description"):
+                # name and kind come from the description itself (nothing passed explicitly)
+                fir = dict(fir, name=fname, type=ftype)
+                fname = ftype = None
+            node = emit.function(fir, function_name=fname, function_type=ftype, word_wrap=ww,
                                  emit_default_doc=edd, indent_level=opts["indent_level"],
                                  emit_separating_tab=opts["emit_separating_tab"], inline_types=opts["inline_types"],
                                  emit_as_kwonlyargs=opts["emit_as_kwonlyargs"])
